@@ -55,6 +55,7 @@ type callRec struct {
 	refused bool
 	events []event
 	swept  bool
+	batch  bool // taken by a ReapTimeout that is under way (or done)
 	expect *event // what the property says this call must be completed with (nil = still outstanding)
 	retCh  chan event
 }
@@ -62,6 +63,8 @@ type callRec struct {
 type fail struct{ key, what string }
 
 type sim struct {
+	blk    *block // the interleaved ReapTimeout under way, if any
+	nested int    // depth of harness ops running inside a callback of that ReapTimeout
 	cap    int
 	cli    *qnet.RpcClient
 	base   time.Time
@@ -141,7 +144,11 @@ func (s *sim) startCall(block bool) *callRec {
 	} else {
 		var err error
 		cb := func(m proto.Message, ec int32) error {
-			s.record(id, event{kind: "cb", msg: msgText(m), ec: ec})
+			e := event{kind: "cb", msg: msgText(m), ec: ec}
+			s.record(id, e)
+			if s.blk != nil && s.nested == 0 {
+				s.blk.onAsync(c, e) // a completion made by the interleaved ReapTimeout: the script runs here
+			}
 			if id%5 == 0 {
 				return errCb
 			}
